@@ -816,11 +816,11 @@ func sameDecFails(a, b []decRes) bool {
 }
 
 // foldDecFails reports decoder failures of one encoder; when every decoder fails the same way it is one class.
-func foldDecFails(prefix []string, enc string, nDecoders int, rs []decRes, add func(sig, msg string)) {
+func foldDecFails(prefix []string, enc string, nDec int, rs []decRes, add func(sig, msg string)) {
 	if len(rs) == 0 {
 		return
 	}
-	all := len(rs) == nDecoders
+	all := len(rs) == nDec
 	for _, r := range rs {
 		all = all && r.kind == rs[0].kind && r.tail == rs[0].tail
 	}
@@ -835,7 +835,24 @@ func foldDecFails(prefix []string, enc string, nDecoders int, rs []decRes, add f
 		add(sig(enc+"->all-decoders", rs[0]), rs[0].msg)
 		return
 	}
+	// every dst variant of the batch decoder failing the same way is one class, not one per variant
+	var batch []decRes
 	for _, r := range rs {
+		if strings.HasPrefix(r.dec, "batch") {
+			batch = append(batch, r)
+		}
+	}
+	foldBatch := len(batch) == len(dstNames) && nDec == 1+len(dstNames)
+	for _, r := range batch {
+		foldBatch = foldBatch && r.kind == batch[0].kind && r.tail == batch[0].tail
+	}
+	if foldBatch {
+		add(sig(enc+"->batch-every-dst", batch[0]), batch[0].msg)
+	}
+	for _, r := range rs {
+		if foldBatch && strings.HasPrefix(r.dec, "batch") {
+			continue
+		}
 		add(sig(enc+"->"+r.dec, r), r.msg)
 	}
 }
@@ -884,14 +901,9 @@ func subsetDecFails(rs []decRes) []decRes {
 
 // checkBufferStates: the batch encoder is called once per destination-buffer state; its verdict must be the one it
 // gave for a nil buffer, and its output must either be byte-identical to the nil-buffer output (whose decoding has
-// been checked already) or decode to the input with the scalar and the batch decoder. Only the first failing state
-// of a case is reported (the others are listed in the message) to keep the number of classes small.
+// been checked already) or decode to the input with the scalar and the batch decoder. The states are visited in the
+// order of bufStates and only the first failing state of a case is reported, to keep the number of classes small.
 func checkBufferStates(typ string, raw []uint64, desc, feat string, mustAccept, refOK bool, ref []byte, refErr error, refFails []decRes, add func(sig, msg string)) {
-	type stateFail struct {
-		state string
-		fs    []fail
-	}
-	var sfs []stateFail
 	L := len(ref)
 	for _, st := range bufStates {
 		buf := mkBuf(st, typ, raw, L)
@@ -900,8 +912,8 @@ func checkBufferStates(typ string, raw []uint64, desc, feat string, mustAccept, 
 		var err error
 		p, d := vlib.Guard(func() { b, err = batchEncode(typ, raw, buf) })
 		bufStat.encodes++
-		var fs []fail
-		addf := func(sig, msg string) { fs = append(fs, fail{sig, msg}) }
+		failed := false
+		addf := func(sig, msg string) { failed = true; add(sig, msg) }
 		switch {
 		case p:
 			if refOK {
@@ -923,28 +935,14 @@ func checkBufferStates(typ string, raw []uint64, desc, feat string, mustAccept, 
 			bufStat.same++
 		default:
 			bufStat.differ++
-			rs := decodeBoth(typ, raw, b, desc, name, feat)
+			rs := decodeBoth(typ, raw, b, desc+fmt.Sprintf(" [dst buffer %s: len=%d cap=%d; output %d bytes, nil-buffer output %d bytes]", st, len(buf), cap(buf), len(b), L), name, feat)
 			if len(rs) > 0 && !sameDecFails(rs, subsetDecFails(refFails)) {
 				foldDecFails([]string{"codec", typ}, name, 3, rs, addf)
 			}
 		}
-		if len(fs) > 0 {
-			sfs = append(sfs, stateFail{st, fs})
+		if failed {
+			return
 		}
-	}
-	if len(sfs) == 0 {
-		return
-	}
-	var also []string
-	for _, sf := range sfs[1:] {
-		also = append(also, sf.state)
-	}
-	for _, f := range sfs[0].fs {
-		msg := f.msg
-		if len(also) > 0 {
-			msg += " (also failing with buffer states " + strings.Join(also, ",") + ")"
-		}
-		add(f.sig, msg)
 	}
 }
 
@@ -1621,8 +1619,10 @@ func checkBlock(cs Case) (outcome string, fails []fail) {
 		// destination-buffer states of the block encoder: same verdict, and byte-identical output or at least an
 		// output that decodes to the input with the value-at-a-time and the array decoder
 		nameOf := [2]string{"DecodeBlock", "DecodeArrayBlock"}
-		reported := false
 		for _, st := range blockBufStates {
+			if len(rs) > 0 {
+				break // the nil-buffer output fails already: nothing new to learn
+			}
 			L := len(block)
 			var buf []byte
 			switch st {
@@ -1670,9 +1670,9 @@ func checkBlock(cs Case) (outcome string, fails []fail) {
 					}
 				}
 			}
-			if len(rs2) > 0 && !reported && len(rs) == 0 { // first failing state only; nothing new if the nil buffer fails too
-				reported = true
+			if len(rs2) > 0 { // first failing state only
 				foldDecFails([]string{"block", typ}, name, 2, rs2, add)
+				break
 			}
 		}
 	}
@@ -1817,7 +1817,7 @@ func (e *enumerator) visit(mk func() Case) {
 	}
 	e.mine++
 	if e.mine&0xff == 0 && e.c.Expired() {
-		e.c.Cap("wall budget expired; families are visited in the order listed in the rule, the later ones are incomplete")
+		e.c.Cap("wall budget expired; families are visited in the order F1 (quick bounds), F2 (F5 after the boolean part), F3, F4, then (thorough) the longer F1 sequences; the later ones are incomplete")
 		e.stop = true
 		return
 	}
@@ -1923,44 +1923,52 @@ func explore(c *vlib.Ctx) {
 		lastIdx = e.idx
 	}
 	thorough := c.Thorough()
-	shortMax := 4
 	longLens := quickLens
 	if thorough {
-		shortMax = 5
 		longLens = allLens
 	}
 	debug.SetGCPercent(400)
 
-	// F1: every sequence of length 0..shortMax over each type's boundary alphabet, every component codec path
-	for _, typ := range []string{"time", "int", "uint", "float", "string"} {
-		typ := typ
-		max := shortMax
-		if thorough && typ != "string" {
-			max = 6
+	// F1: every sequence of length 0..shortMax over each type's boundary alphabet, every component codec path. The
+	// quick bounds come first; the longer sequences of the thorough tier come last (F1x) so that a thorough run that
+	// hits its wall budget on a loaded machine has still covered everything the quick tier covers.
+	f1Max := func(typ string, thorough bool) int {
+		switch {
+		case typ == "string" && !thorough:
+			return 3
+		case typ == "string":
+			return 4
+		case typ == "bool" && !thorough:
+			return 12
+		case typ == "bool":
+			return 18
+		case typ == "uint64" && thorough: // simple8b
+			return 5
+		case thorough:
+			return 6
 		}
-		if typ == "string" && !thorough {
-			max = 3
+		return 4
+	}
+	f1 := func(typ string, lo, hi int) {
+		if lo > hi {
+			return
 		}
-		if typ == "string" && thorough {
-			max = 4
+		level := "codec"
+		if typ == "uint64" {
+			level = "s8b"
 		}
-		allSeqs(alphaOf(typ), 0, max, func(lit []uint64) {
-			e.visit(func() Case { return Case{Level: "codec", Type: typ, V: Spec{Kind: "lit", Lit: clone(lit)}} })
+		allSeqs(alphaOf(typ), lo, hi, func(lit []uint64) {
+			e.visit(func() Case { return Case{Level: level, Type: typ, V: Spec{Kind: "lit", Lit: clone(lit)}} })
 		})
 	}
-	mark("F1-codec-short")
-	boolMax := 12
-	if thorough {
-		boolMax = 18
+	for _, typ := range []string{"time", "int", "uint", "float", "string"} {
+		f1(typ, 0, f1Max(typ, false))
 	}
-	allSeqs(boolAlpha, 0, boolMax, func(lit []uint64) {
-		e.visit(func() Case { return Case{Level: "codec", Type: "bool", V: Spec{Kind: "lit", Lit: clone(lit)}} })
-	})
+	mark("F1-codec-short")
+	boolMax := f1Max("bool", thorough) // F5 starts above the lengths F1/F1x cover with ALL sequences
+	f1("bool", 0, f1Max("bool", false))
 	mark("F1-bool-short")
-	allSeqs(s8Alpha, 0, shortMax, func(lit []uint64) {
-		e.visit(func() Case { return Case{Level: "s8b", Type: "uint64", V: Spec{Kind: "lit", Lit: clone(lit)}} })
-	})
-
+	f1("uint64", 0, f1Max("uint64", false))
 	mark("F1-s8b-short")
 	// F2: run-structured long sequences
 	altSet := []uint64{0, 1, 2, 255, 256, 1 << 30, 1<<60 - 1, 1 << 60, math.MaxUint64}
@@ -2153,6 +2161,12 @@ func explore(c *vlib.Ctx) {
 		}
 	}
 	mark("F4-blocks")
+	if thorough {
+		for _, typ := range []string{"bool", "uint64", "string", "time", "int", "uint", "float"} {
+			f1(typ, f1Max(typ, false)+1, f1Max(typ, true))
+		}
+		mark("F1x-thorough-longer")
+	}
 	c.Extra("bufstate_batch_encodes", bufStat.encodes)
 	c.Extra("bufstate_batch_output_identical_to_nil_buffer", bufStat.same)
 	c.Extra("bufstate_batch_output_differs_decoded_on_both_paths", bufStat.differ)
@@ -2176,8 +2190,9 @@ func TestCheck(t *testing.T) {
 			"F5: booleans (bit-packed, partial last byte): EVERY length 13..40, 57..72, 113..136 (thorough 19..72, 113..136, 233..264, 993..1008, 2041..2056, 16377..16392; with F1 every n%8 at every byte / count-varint / block-size boundary) × {constant, alternating, bed with one outlier at EVERY position (n<=72) or at the boundary positions and each of the last 9 positions}. " +
 			"Per codec case every encoder (scalar, batch, batch into a reused buffer) × every decoder (scalar/iterator; batch with dst ∈ {nil, large dirty cap with half length, tiny dirty, exact-size, one-too-short, 9-too-long — the last three full-length and pre-filled with the complement of every expected value}) is run; oracle = identity (Float64bits-exact, same length), NaN-containing float input may be rejected but then by every encoder alike. " +
 			"DESTINATION-BUFFER DIMENSION: per codec case the batch encoder <T>ArrayEncodeAll(src,b) (T = Time, Integer, Unsigned, Float, Boolean, String) is additionally run with b ∈ {len 0 / cap H all 0xff; len=cap=L all 0xff; len=cap=L+24 all 0xff; len=cap=H all 0xff; len H/2 cap H all 0xaa; exactly the slice returned by encoding a DIFFERENT sequence of n+17 items (its len and cap); that slice re-sliced to full capacity; the slice returned by encoding a different sequence of n/2 items} (L = length of the nil-buffer output, H = 3×raw input bytes + L + 128), and a scalar encoder object that has encoded another sequence of min(n+17,81) items and was Reset(); oracle: same accept/reject verdict as with a nil buffer / fresh encoder, and the output is byte-identical to it or else decodes to the input through BOTH the scalar/iterator decoder and the batch decoder (nil and dirty exact-size dst). " +
-			"Per block case each block encoder (Values.Encode(buf), <T>Values.Encode(buf), Encode<T>ArrayBlock(a,buf)) is additionally run with buf ∈ {len 0 cap L+64 0xff; len=cap=L+64 0xff; len (L+64)/2 cap L+64 0xaa; the block itself followed by its complement (an earlier longer block)} with the same oracle through DecodeBlock and Decode<T>ArrayBlock. Only the first failing buffer state of a case is reported as a class. " +
+			"Per block case each block encoder (Values.Encode(buf), <T>Values.Encode(buf), Encode<T>ArrayBlock(a,buf)) is additionally run with buf ∈ {len 0 cap L+64 0xff; len=cap=L+64 0xff; len (L+64)/2 cap L+64 0xaa; the block itself followed by its complement (an earlier longer block)} with the same oracle through DecodeBlock and Decode<T>ArrayBlock. Buffer states are tried in the listed order and only the first failing one of a case is reported. " +
 			"simple8b (Encode, EncodeAll, Encoder, Decode, DecodeAll, DecodeBytesBigEndian, Decoder, CountBytes, Count) must reject exactly the inputs containing a value > 2^60-1. " +
+			"Visiting order: F1 at the quick bounds, F2 (F5 after the boolean part), F3, F4, and in the thorough tier the longer F1 sequences last. " +
 			"Non-trivial = non-empty sequence; cases are distinct by construction (families use disjoint lengths / a base value outside the alphabet).",
 		Assumptions: []string{
 			"explicit rejection (an error) of float sequences containing NaN is not a violation (float.go documents NaN as unstorable); all encoders must then agree",
